@@ -13,6 +13,7 @@ func verifH_C20_verifier() {
 	}
 	v := NewVerifier(nil)
 	verifWatch(v, &v.mu)
+	verifSerialMu = &v.mu
 	switch verifParam("method") {
 	case 0:
 		v.WithAAChallenge(verifBytes(verifParam("n")))
